@@ -142,6 +142,7 @@ type History struct {
 	overflow bool
 	replicaID uint32
 	byID      map[uint64]*TableDef
+	sessionCharset *[3]int32
 }
 
 // GenOpts tunes the history generator per property.
@@ -459,8 +460,17 @@ func (b *builder) statusVars(withCharset *[3]int32) []byte {
 
 // queryEvent adds a QUERY_EVENT and returns it with the expected Query fields.
 func (b *builder) queryEvent(ts uint32, db, sql string) (*Event, *[3]int32) {
+	// a real binlog carries the same session charset triple on nearly every
+	// query event; now and then a session uses another one or none is logged
 	var cs *[3]int32
-	if b.s.Chance(3, 4) {
+	if b.h.sessionCharset == nil {
+		b.h.sessionCharset = &[3]int32{int32(b.s.N(300)), int32(b.s.N(300)), int32(b.s.N(65536))}
+	}
+	switch b.s.Weighted(6, 2, 1) {
+	case 0:
+		c := *b.h.sessionCharset
+		cs = &c
+	case 1:
 		cs = &[3]int32{int32(b.s.N(300)), int32(b.s.N(300)), int32(b.s.N(65536))}
 	}
 	q := queryParams{ThreadID: uint32(b.s.N(1000)), ExecTime: uint32(b.s.N(5)), DB: db, SQL: sql,
